@@ -473,6 +473,7 @@ Index(
     dtype={dtype},
     checks={checks},
     nullable={nullable},
+    unique={unique},
     coerce={coerce},
     name={name},
     description={description},
@@ -541,6 +542,7 @@ def _format_index(index_statistics):
                 else _format_checks(properties["checks"])
             ),
             nullable=properties["nullable"],
+            unique=properties["unique"],
             coerce=properties["coerce"],
             name=(
                 "None"
